@@ -396,7 +396,7 @@ def char_class(spec):
 # sha1[:16] of the normalised source of each pinned function, as read when the model was written
 # (re-pinned for /repo HEAD 2a611aa: Expr::write, ExprKind::write, Ident::write, display_interpolation, SwitchCase::write,
 #  parser::maybe_aliased changed with the fix commits 95d15ad 1b7b9df 4d5b01d e945e0b c8b3817 2a611aa;
-#  Stmt::write re-pinned for b4fb037: saturating indent arithmetic, the model counts indentation in nat)
+#  Stmt::write re-pinned for e3202e5 (alias guard of the Main arm, mirrored by FmtStmt.fmt_value_lines) and b4fb037: saturating indent arithmetic, the model counts indentation in nat)
 PINNED = {
     "needs_parenthesis": "7130b65cce8b7964",
     "write_within": "dd3053dbcfdc95d3",
@@ -429,7 +429,7 @@ PINNED = {
     "parser::module_contents": "b6d940a52928f01a",
     "parser::var_def": "fc9a120c4bace214",
     "parser::import_def": "779ef6dfbd065f4e",
-    "Stmt::write": "66778596ce4bc35f",
+    "Stmt::write": "a9bd15b8ac448f64",
     "Stmts::write": "7a037f3d9fa22f69",
 }
 
